@@ -62,8 +62,8 @@ pub fn base_state(bytes: Vec<u8>) -> Result<State, String> {
     Ok(State { bytes, exp, comment: p.comment })
 }
 
-pub const N_OPS: usize = 10;
-pub const OPS: [&str; N_OPS] = ["nothing", "file-stored", "file-deflated", "dir", "file+extra", "raw-copy", "two-files", "symlink", "aligned-large", "bzip2-empty+utf8"];
+pub const N_OPS: usize = 12;
+pub const OPS: [&str; N_OPS] = ["nothing", "file-stored", "file-deflated", "dir", "file+extra", "raw-copy", "two-files", "symlink", "aligned-large", "bzip2-empty+utf8", "refused-call-only", "refused-call-then-file"];
 pub const COMMENTS: [&str; 3] = ["keep", "shorter", "longer"];
 
 pub fn round_calls(op: usize, cm: usize, finish: bool, round: usize, seed: u64) -> (Vec<Call>, Vec<Exp>, Option<Vec<u8>>) {
@@ -121,6 +121,12 @@ pub fn round_calls(op: usize, cm: usize, finish: bool, round: usize, seed: u64) 
             calls.push(Call::StartFile { name: format!("r{round}/ü-empty"), opts: FOpts::m(12) });
             exp.push(Exp { name: format!("r{round}/ü-empty"), content: Some(vec![]), method: 12, date: t.0, time: t.1, mode: Some(Some(0o100644)) });
         }
+        // an add whose name is one byte too long for the format is refused; the round goes on (or ends) as if it had not been made
+        10 => calls.push(Call::StartFile { name: "n".repeat(65536), opts: FOpts::m(8) }),
+        11 => {
+            calls.push(Call::AddDir { name: "d".repeat(65536), opts: FOpts::m(0) });
+            file(format!("r{round}/after-refusal"), 8, &c300, &mut calls, &mut exp);
+        }
         _ => {}
     }
     if let (Some(c), false) = (&new_comment, round % 2 == 0) {
@@ -137,7 +143,14 @@ pub fn step(s: &State, op: usize, cm: usize, finish: bool, round: usize, seed: u
     let (calls, new_exp, new_comment) = round_calls(op, cm, finish, round, seed);
     let (res, bytes) = exec_append(&s.bytes, &calls, src);
     let names: Vec<&str> = std::iter::once("new_append").chain(calls.iter().map(|c| c.opname())).collect();
-    if let Some((i, r)) = res.iter().enumerate().find(|(_, r)| !r.is_ok()) {
+    // the deliberately over-long name: refusal expected (index i of `res` is call i-1; res[0] is new_append)
+    let refusal_expected = |i: usize| i >= 1 && matches!(calls.get(i - 1), Some(Call::StartFile { name, .. }) | Some(Call::AddDir { name, .. }) if name.len() > 65535);
+    if res.iter().enumerate().any(|(i, r)| refusal_expected(i) && r.is_ok()) {
+        // accepted: C02's business (unrepresentable input); this round says nothing about appending
+        st.class("over-long-name-accepted(C02)");
+        return None;
+    }
+    if let Some((i, r)) = res.iter().enumerate().find(|(i, r)| !r.is_ok() && !(refusal_expected(*i) && r.is_err())) {
         let kind = if r.is_panic() { "panic" } else { "call-failed" };
         st.class("APPEND-CALL-FAILED");
         st.viol(
@@ -377,7 +390,7 @@ pub fn run(args: &Args) -> i32 {
     bs.extend(cpython_bases());
     let src = crate::props::c02::sources(seed);
     ctx.rule = format!(
-        "E-SEQ over append histories: state = archive bytes, transition = new_append + one of {{nothing, stored file, deflated file, directory, file with extra data, raw copy, two files, symlink, aligned large_file entry, empty bzip2 entry with a non-ASCII name}} x comment {{keep, replace shorter, replace longer}} x {{finish, drop}} (60 transitions). \
+        "E-SEQ over append histories: state = archive bytes, transition = new_append + one of {{nothing, stored file, deflated file, directory, file with extra data, raw copy, two files, symlink, aligned large_file entry, empty bzip2 entry with a non-ASCII name, a refused add (name of 65 536 bytes) alone, a refused add followed by a file}} x comment {{keep, replace shorter, replace longer}} x {{finish, drop}} (72 transitions). \
          ALL histories of up to {rounds} rounds from {} base archives (writer-made: empty, every method, comment+dir+symlink, extra data+large_file, raw copy{}; builder-made: 1000-byte prefix, forced ZIP64 end records (with and without entries), forced ZIP64 fields, data descriptors, DOS/NTFS made-by, comments+extras+CP437 name, trailing garbage, reordered directory+gaps, method 14; CPython-made deflate/bzip2 with force_zip64). \
          After every round the crate reader and the independent parser must list the base entries (as the independent parser read them from the base) followed by everything appended so far, with names, contents, methods, DOS words, modes and the archive comment. distinct_nontrivial = distinct archive byte strings reached (hash set).",
         bs.len(),
